@@ -11,6 +11,7 @@ mod c17;
 mod stats;
 mod c07;
 mod c10;
+mod c15;
 
 use util::Out;
 
@@ -38,6 +39,7 @@ fn main() {
         "C07" => c07::run_c07(&mut out),
         "C08" => c07::run_c08(&mut out),
         "C10" => c10::run(&mut out),
+        "C15" => c15::run(&mut out),
         _ => {
             eprintln!("unknown property {prop}");
             std::process::exit(2);
